@@ -315,10 +315,10 @@ def main(chk: C.Check, build: C.Build) -> None:
         grp = both[gi:gi + GROUP]
         used = sorted({x["base"] for x in grp} & shared)
         defs = "\n".join(f"Definition B{b} : str := {C.cstr(cs.bases[b])}." for b in used)
-        C.correspond(chk, f"c02_lex_{gi // GROUP}", IMPORTS, defs, grp,
+        L.correspond(chk, f"c02_lex_{gi // GROUP}", IMPORTS, defs, grp,
                      what="Lex.lex + ErrCtx.error_context (malformed stream)",
                      shard=max(50, -(-len(grp) // SHARDS)))
-    C.correspond(chk, "c02_ctx", IMPORTS, "", eitems, what="ErrCtx.error_context / line_number",
+    L.correspond(chk, "c02_ctx", IMPORTS, "", eitems, what="ErrCtx.error_context / line_number",
                  shard=max(50, -(-len(eitems) // 16)))
     C.proofs_verdict(chk, proofs_ok)
 
